@@ -177,7 +177,7 @@ def _is_whole_def(d):
     return True
 
 
-def origins(body, place, at=None, extra_transparent=None, stop=None, max_steps=4000, through_fields=True):
+def origins(body, place, at=None, extra_transparent=None, stop=None, max_steps=4000, through_fields=True, follow_partial=True):
     """Backward may-slice of `place` ([local, proj...]) to its leaf origins.
 
     at: (bb, idx) program point where the place is read (for reaching-definition precision)
@@ -236,6 +236,8 @@ def origins(body, place, at=None, extra_transparent=None, stop=None, max_steps=4
                 continue
             dplace, rv = payload
             dpath = tuple(map(_freeze, clean_path(dplace[1:])))
+            if dpath and not follow_partial:
+                continue
             rest = _strip_prefix(path, dpath)
             if rest is None:
                 continue
